@@ -489,6 +489,23 @@ func (s *sim) genTx() *entry {
 			}
 		}
 	}
+	if !a.poor && c.Chance("price-magnitude", 1, 6) {
+		// prices of every magnitude (the funded clients hold 10^27): multiples of 1000^k keep
+		// prices distinct between accounts (bases are < 1000 and distinct), and a boundary
+		// price puts limit*price just above 2^64 (rounded up to a multiple of 1024, plus the
+		// account's distinct base)
+		if c.Chance("price-at-2^64", 1, 3) && f.Gas > 0 {
+			q := new(big.Int).Div(new(big.Int).Lsh(big.NewInt(1), 64), new(big.Int).SetUint64(f.Gas))
+			q.Add(q, big.NewInt(1024))
+			q.And(q, new(big.Int).Not(big.NewInt(1023)))
+			f.Price = q.Add(q, f.Price)
+			what += " price-at-2^64/limit"
+		} else {
+			m := new(big.Int).Exp(big.NewInt(1000), big.NewInt(int64(1+c.Intn("price-exp", 6))), nil)
+			f.Price = new(big.Int).Mul(f.Price, m)
+			what += " price*" + m.String()
+		}
+	}
 	if kind == kStake {
 		a.stakeTouched = true
 	}
